@@ -304,6 +304,42 @@ def run(ctx):
                                           % (method, list(gaps), ", with M" if withM else "", why),
                                           {"gaps": list(gaps), "method": method, "M": withM, "order": list(order), "G": G.tolist(),
                                            "A": [a_.tolist() for a_, _ in elems], "Mm": [m_.tolist() if m_ is not None else None for _, m_ in elems]})
+        # ---- spectra of very small / large magnitude with well separated RELATIVE gaps, and the degeneracy thresholds switched off:
+        #      eigenvalues that are distinct at the scale of the problem are not to be treated as coinciding
+        for scale in (1e-7, 1.0, 1e4):
+            for method, opkind in (("custom_exacteig", "dense"), ("davidson", "free")):
+                for bck in ({}, {"degen_atol": 0.0, "degen_rtol": 0.0}):
+                    ntab += 1
+                    ctx.case(key=("scaled-spectrum", scale, method, tuple(sorted(bck))))
+                    n, neig = 5, 3
+                    A0, _ = build(n, spectrum_for((False, False), n), False, g)
+                    G = sym(torch.randn(n, n, generator=g, dtype=DT))
+                    blocks = [[0], [1], [2]]
+                    why = None
+                    try:
+                        Al = (A0 * scale).clone().requires_grad_()
+                        A = LinearOperator.m(sym(Al), is_hermitian=True) if opkind == "dense" else HermOp(sym(Al))
+                        kw = {"min_eps": 1e-12 * scale} if method == "davidson" else {}
+                        ev, evec = xitorch.linalg.symeig(A, neig=neig, mode="lowest", method=method, bck_options=dict(bck), **kw)
+                        if method == "davidson" and not forward_accurate(A0 * scale, None, ev.detach(), evec.detach(), ) and scale == 1.0:
+                            skipped[0] += 1
+                            continue
+                        # eigenvector part only (scaled so that the loss is O(1) whatever the magnitude of the spectrum)
+                        L = loss_fn(ev / scale, evec, blocks, G, None)
+                        Al2 = (A0 * scale).clone().requires_grad_()
+                        Ld = dense_loss(sym(Al2), None, neig, blocks, G)
+                        ev_d = torch.linalg.eigvalsh(sym(Al2))
+                        Ld = Ld - sum((1.0 + 0.3 * bi) * ev_d[b].sum() for bi, b in enumerate(blocks)) + sum((1.0 + 0.3 * bi) * ev_d[b].sum() for bi, b in enumerate(blocks)) / scale
+                        ga, = torch.autograd.grad(L, Al)
+                        gr, = torch.autograd.grad(Ld, Al2)
+                        rel = float((sym(ga) - sym(gr)).abs().max()) / max(float(sym(gr).abs().max()), 1e-300)
+                        if not rel <= (1e-5 if method != "davidson" else 1e-3):
+                            why = "gradient differs from the dense eigendecomposition by a relative %.2e" % rel
+                    except Exception as e:
+                        why = "raised %s: %s" % (type(e).__name__, str(e)[:140])
+                    if why:
+                        ctx.violation("eiggrad/scaled-spectrum/%s" % method, "symeig(%s, bck_options %s) on a well separated spectrum scaled by %g: %s" % (method, bck, scale, why),
+                                      {"scale": scale, "method": method, "bck": bck})
         # ---- operators that depend non-linearly on their own parameter tensor (second order needs the explicit d2A/dp2 term)
         from props.c02 import NonlinOp
         for method in ("custom_exacteig", "davidson"):
